@@ -6547,8 +6547,11 @@ nice_agent_attach_recv (
   if (ctx == NULL)
     ctx = g_main_context_default ();
 
-  /* Set the component’s I/O context. */
-  nice_component_set_io_context (component, ctx);
+  /* Set the component’s I/O context. While reception is paused (no @func),
+   * park the sockets on the component’s own context: component_io_cb() reads
+   * nothing in that state, so leaving them attached to @ctx would make that
+   * context spin as soon as one datagram is pending. */
+  nice_component_set_io_context (component, func != NULL ? ctx : NULL);
   nice_component_set_io_callback (component, func, data, NULL, 0, NULL);
   ret = TRUE;
 
